@@ -6,6 +6,7 @@ package main
 
 import (
 	"fmt"
+	"strings"
 	"go/token"
 	"go/types"
 
@@ -19,6 +20,35 @@ type guardedField struct {
 	mutexField string
 	embedded   bool // mutex is an embedded struct field (address-of), otherwise a pointer field
 	contents   bool // the field holds a map whose contents are what is protected
+}
+
+// sharedFlags: fields written by one thread and read by others with no lock at all; every access
+// is reported (race/shared-field) and every store must store true (flag/monotone).
+var sharedFlags = map[string]bool{"concurrent.Future.Done": true, "concurrent.Future.Cancelled": true}
+
+func (a *Act) checkSharedFlag(st *State, lv *LV, write bool, val Term, pos token.Pos) {
+	tr := a.tr
+	if !tr.lockMode || lv == nil || lv.kind != lvField || lv.base.kind != lvCell {
+		return
+	}
+	stt, ok := lv.base.typ.Underlying().(*types.Struct)
+	if !ok {
+		return
+	}
+	name := typeStr(lv.base.typ) + "." + stt.Field(lv.field).Name()
+	if !sharedFlags[name] {
+		return
+	}
+	// allocated by this activation and not yet shared: fine
+	a.oblige(st, "race/shared-field", pos, "true", app(">", lv.base.addr, tr.alloc0), map[string]Term{"field": fmt.Sprintf("%q", name)})
+	if write {
+		a.oblige(st, "flag/monotone", pos, "true", Eq(val, "true"), nil)
+	}
+}
+
+type recvRec struct {
+	ch, val, cond Term
+	sort          string
 }
 
 var guardedFields = []guardedField{
@@ -150,4 +180,61 @@ func (a *Act) checkLockBalance(st *State, pos token.Pos) {
 	now := tr.read(tr.heapOf(st, tr.lockCount()))
 	entry := tr.read(tr.heapOf(tr.rootAct.entryState, tr.lockCount()))
 	a.oblige(st, "lock/balance", pos, "true", Eq(now, entry), nil)
+}
+
+// channel discipline hooks (C10): what is received in a select case and what is sent
+func (a *Act) noteRecv(st *State, ch, val, cond Term, sort string) {
+	a.recvs = append(a.recvs, recvRec{ch: ch, val: val, cond: And(st.reach, cond), sort: sort})
+}
+
+func (a *Act) noteSend(st *State, ch ssa.Value, chT, val Term, cond Term, pos token.Pos) {
+	tr := a.tr
+	c := tr.comp("ghost:sent", nil, "Int", false)
+	cur := tr.read(tr.heapOf(st, c))
+	st.heap[c.name] = tr.heapStore(tr.heapOf(st, c), nil, tr.define("sent", "Int", Ite(cond, app("+", cur, "1"), cur)))
+	if !tr.lockMode {
+		return
+	}
+	fname := fnName(a.fn)
+	// re-deposit: in Future.Deref every send puts back exactly what the same activation received on that channel
+	if strings.HasSuffix(fname, "Future).Deref") {
+		var alts []Term
+		vs := a.sortOf(ch.Type().Underlying().(*types.Chan).Elem())
+		for _, r := range a.recvs {
+			if r.sort != vs {
+				continue
+			}
+			alts = append(alts, And(r.cond, Eq(r.ch, chT), Eq(r.val, val)))
+		}
+		a.oblige(st, "chan/redeposit", pos, cond, Or(alts...), nil)
+	}
+	// publish order: when the outcome is sent (from then on a deref can return) Done is already true
+	if fa, ok := chanField(ch); ok && (fa.name == "ValChan" || fa.name == "ErrChan") && strings.Contains(fname, "NewFuture$") {
+		base := a.lvOf(st, fa.base)
+		stt := base.typ.Underlying().(*types.Struct)
+		for i := 0; i < stt.NumFields(); i++ {
+			if stt.Field(i).Name() == "Done" {
+				done := a.load(st, &LV{kind: lvField, typ: stt.Field(i).Type(), base: base, field: i})
+				a.oblige(st, "publish/order", pos, cond, done, nil)
+			}
+		}
+	}
+}
+
+type chanFieldRef struct {
+	base ssa.Value
+	name string
+}
+
+// chanField: ch is the value of field X of the struct pointed to by base.
+func chanField(ch ssa.Value) (chanFieldRef, bool) {
+	if u, ok := ch.(*ssa.UnOp); ok {
+		if fa, ok := u.X.(*ssa.FieldAddr); ok {
+			pt := fa.X.Type().Underlying().(*types.Pointer).Elem()
+			if stt, ok := pt.Underlying().(*types.Struct); ok {
+				return chanFieldRef{base: fa.X, name: stt.Field(fa.Field).Name()}, true
+			}
+		}
+	}
+	return chanFieldRef{}, false
 }
